@@ -253,10 +253,11 @@ Record conc_facts := mkConcFacts {
   ff_pool_new_empty : bool;    (* bufferPool.New: make([]byte, 0, n) *)
   lf_gate_first : bool;        (* log, logf, logAttrs start with `if !l.h.Enabled(level) { return nil }` *)
   of_level_stored : bool;      (* NewOptions stores its level argument unchanged *)
-  of_enabled_is_ge : bool      (* Options.Enabled is `l >= opts.level` *)
+  of_enabled_is_ge : bool;     (* Options.Enabled is `l >= opts.level` *)
+  hf_mu_out_immutable : bool   (* no method of the handler type assigns outMu or out *)
 }.
 Definition conc_flags (x : conc_facts) : cflags :=
-  mkCF (hf_single_write x) (hf_write_under_lock x) (hf_clone_shares_mu x)
+  mkCF (hf_single_write x) (hf_write_under_lock x) (hf_clone_shares_mu x && hf_mu_out_immutable x)
        (ff_reset_before_put x && ff_pool_new_empty x) (ff_refuses_oversized x) (lf_gate_first x)
        (hf_buf_from_pool x && hf_free_deferred x).
 (** the last two facts tie the model's gate predicate to [level_enabled threshold] with the threshold the caller configured *)
